@@ -4,7 +4,8 @@
   Proved here, for all inputs, over the models of Hw.Io.Xml / Hw.Io.Base64 / Hw.Base.Num (tied to the C code byte for byte
   by engine `xmlrt`): the byte-level building blocks of the round trip, the equivalence relation the round trip is
   judged with, the object level (one start tag, section (e)) and the tree level (nesting, child elements, the four child
-  lists, section (f)) of the v3 format.  Distances / memattrs / cpukinds / support elements, the v2-format flags and libxml2 are
+  lists, section (f)) and the side-structure elements (cpukind, memattr, distances2 / distances2hetero, topology info, section (g))
+  of the v3 format.  Support elements, the v2-format flags and libxml2 are
   exercised, not modelled: the round trip of whole topologies is established on the generated topologies of every run
   (tools/eng_xmlrt.py).
 -/
@@ -12,6 +13,7 @@ import Hw.Io.XmlLemmas
 import Hw.Io.Base64Lemmas
 import Hw.Io.XmlObjLemmas
 import Hw.Io.XmlTreeLemmas
+import Hw.Io.XmlSideLemmas
 import Hw.Props.C04
 namespace Hw.Props.C05
 open Hw Hw.Xml Hw.Topo
@@ -368,6 +370,100 @@ example : (match XmlTree.importTree
     with | .reject => true | _ => false) = true := by decide
 example : XmlTree.udValid { name := none, b64 := true, data := [0, 255] } = true := by decide
 example : (2 : Nat) ≠ Hw.Topo.tGROUP ∧ (2 : Nat) ≠ Hw.Topo.tBRIDGE := by decide
+
+
+/-! ### (g) the side-structure elements after the root object (Hw.Io.XmlSide; tied by the SIDE lines of engine `xmlrt`) -/
+
+/-- P0.  CPU kinds: for EVERY list of kinds, importing the `<cpukind>` elements hwloc__xml_export_cpukinds writes hands
+    hwloc_internal_cpukinds_register the same kinds in the same order: cpuset, forced efficiency (absent = unknown) and info pairs
+    (strings through safestrdup) -/
+theorem C05_cpukinds_xml_roundtrip (l : List XmlSide.Kind) (h : ∀ k ∈ l, XmlSide.kindValid k = true) :
+    XmlSide.mapRes XmlSide.importKind (XmlSide.exportKinds l) = .ok (l.map XmlSide.normKind) :=
+  XmlSide.mapRes_ok _ _ _ l (fun k hk => XmlSide.importKind_exportKind k (h k hk))
+
+/-- P0.  Memory attributes: for EVERY array topology->memattrs[], importing the `<memattr>` elements hwloc__xml_export_memattrs writes
+    (it skips the two virtual attributes and standard attributes without target) yields, per written attribute and in order, its
+    name, its flags and one hwloc_internal_memattr_set_value call per exported value: target (type, gp_index), initiator
+    (cpuset | object type + gp_index) when the flags need one, and the u64 value exactly -/
+theorem C05_memattrs_xml_roundtrip (l : List XmlSide.MemAttr) (h : ∀ a ∈ l, XmlSide.memAttrValid a = true) :
+    XmlSide.mapRes XmlSide.importMemAttr (XmlSide.exportMemAttrs l) =
+      .ok ((((List.range l.length).zip l).filter XmlSide.exported).map (fun ia => XmlSide.toIn ia.2)) := by
+  unfold XmlSide.exportMemAttrs
+  exact XmlSide.mapRes_ok XmlSide.importMemAttr (fun ia : Nat × XmlSide.MemAttr => XmlSide.exportMemAttr ia.2) (fun ia => XmlSide.toIn ia.2) _
+    (fun ia hia => XmlSide.importMemAttr_exportMemAttr ia.2 (h ia.2 (List.of_mem_zip (List.mem_filter.mp hia).1).2))
+
+/-- P0.  ... and the find-or-append of hwloc__internal_memattr_set_value, run over those calls, rebuilds the target array of the
+    attribute: the same targets in the same order, each with the same initiators and values in the same order (or its single value) —
+    provided (`memAttrWF`) the targets are pairwise different objects and no initiator MATCHES (match_internal_location: equal object,
+    or a cpuset INCLUDED in) one that precedes it; otherwise the importer merges the two (known finding F59) -/
+theorem C05_memattr_rebuild (a : XmlSide.MemAttr) (h : XmlSide.memAttrWF a = true) :
+    XmlSide.rebuild (XmlSide.callsOf a) = a.targets.map (XmlSide.normTarget a.flags) := XmlSide.rebuild_callsOf a h
+
+/-- P0.  Distances: for EVERY matrix (any nbobjs in 2..65535, homogeneous or heterogeneous), importing the `<distances2>` /
+    `<distances2hetero>` element the exporter writes — the indexes and the nbobjs² values split into `<indexes>` / `<u64values>`
+    children of at most 10 numbers with their `length` attributes — hands hwloc_internal_distances_add_by_index the same unique type /
+    per-object types, kind, name (through safestrdup), object indexes and values -/
+theorem C05_distances_xml_roundtrip (d : XmlSide.Dist) (h : XmlSide.distValid d = true) :
+    XmlSide.importDist d.types.isSome (XmlSide.exportDist d) = .ok (some (XmlSide.normDist d)) ∧
+    (XmlSide.normDist d).idx = d.idx ∧ (XmlSide.normDist d).values = d.values ∧ (XmlSide.normDist d).types = d.types :=
+  ⟨XmlSide.importDist_exportDist d h, rfl, rfl, rfl⟩
+
+/-- hwloc_type_sscanf, handed the rest of an `<indexes>` text of a heterogeneous matrix, stops at the colon for every type name -/
+theorem C05_type_prefix_scan (t : Nat) (h : t < 20) (rest : List Nat) :
+    XmlObj.typeScan (TypeStr.typeString t ++ 58 :: rest) = some t := XmlSide.typePrefixOk_all t h rest
+
+/-- P0.  The whole list of elements after the root object: the loop of hwloc_look_xml over what hwloc__xml_export_topology writes
+    there (homogeneous distances, heterogeneous distances, memattrs, cpukinds, topology infos) collects exactly these structures -/
+theorem C05_side_roundtrip (dists : List XmlSide.Dist) (memattrs : List XmlSide.MemAttr) (kinds : List XmlSide.Kind)
+    (infos : List (List Nat × List Nat))
+    (hd : ∀ d ∈ dists, XmlSide.distValid d = true) (hm : ∀ a ∈ memattrs, XmlSide.memAttrValid a = true)
+    (hk : ∀ k ∈ kinds, XmlSide.kindValid k = true) :
+    XmlSide.importSide (XmlSide.exportSide dists memattrs kinds infos) {} = .ok (XmlSide.sideOf dists memattrs kinds infos) :=
+  XmlSide.importSide_exportSide dists memattrs kinds infos hd hm hk
+
+-- non-vacuity: two kinds (one with a forced efficiency and infos with markup), a custom attribute with initiators of both sorts and a
+-- standard one without, a 3-object PU matrix (2 value chunks: 9 values) and a 12-object heterogeneous one (2 index chunks, 15 value chunks)
+def exKinds : List XmlSide.Kind :=
+  [{ cpuset := 0xf, eff := 3, infos := [(str "CoreType", str "a<b")] }, { cpuset := 0xf0 }]
+def exAttrs : List XmlSide.MemAttr :=
+  [{ name := str "Capacity", flags := 1 }, { name := str "Locality", flags := 2 },
+   { name := str "Bandwidth", flags := 5, targets := [{ type := 14, gp := 7, inits := [(.cpuset 3, 100), (.obj 4 9, 18446744073709551615)] }] },
+   { name := str "Latency", flags := 6 },
+   { name := str "mine", flags := 1, targets := [{ type := 14, gp := 7, value := 5 }, { type := 14, gp := 8, value := 0 }] }]
+def exDistHom : XmlSide.Dist := { utype := some 4, kind := 5, name := some (str "NUMA\x01Latency"), idx := [0, 1, 2], values := [10, 20, 30, 20, 10, 0, 30, 18446744073709551615, 10] }
+def exDistHet : XmlSide.Dist :=
+  { types := some ((List.range 12).map (fun i => if i % 2 = 0 then 2 else 14)), kind := 18, idx := (List.range 12).map (· + 100),
+    values := (List.range 144).map (· * 7) }
+example : ∀ k ∈ exKinds, XmlSide.kindValid k = true := by decide
+example : ∀ a ∈ exAttrs, XmlSide.memAttrValid a = true ∧ XmlSide.memAttrWF a = true := by decide
+example : XmlSide.distValid exDistHom = true ∧ XmlSide.distValid exDistHet = true := by decide +kernel
+example : (XmlSide.exportMemAttrs exAttrs).length = 2 := by decide
+example : ((XmlSide.exportDist exDistHom).kids.map (·.tag)) = [XmlSide.tagIndexes, XmlSide.tagU64] := by decide
+example : ((XmlSide.exportDist exDistHet).kids.filter (fun e => e.tag = XmlSide.tagIndexes)).length = 2 ∧
+    ((XmlSide.exportDist exDistHet).kids.filter (fun e => e.tag = XmlSide.tagU64)).length = 15 := by decide +kernel
+example : (XmlSide.exportDist exDistHom).kids.head?.bind (·.content) = some (str "0 1 2 ") := by decide
+-- the importer's rejections: a cpukind without cpuset, a memattr_value without its target type / without the initiator its flags need,
+-- a distances element without kind, with a child whose text is shorter than its `length`, with more indexes than nbobjs
+example : (match XmlSide.importKind (.mk XmlSide.tagCpukind [(str "forced_efficiency", str "2")] none []) with | .reject => true | _ => false) = true := by decide
+example : (match XmlSide.importValue 1 (.mk XmlSide.tagMemattrValue [(str "target_obj_gp_index", str "3"), (str "value", str "4")] none [])
+    with | .reject => true | _ => false) = true := by decide
+example : (match XmlSide.importValue 5 (.mk XmlSide.tagMemattrValue
+    [(str "target_obj_type", str "NUMANode"), (str "target_obj_gp_index", str "3"), (str "value", str "4")] none [])
+    with | .reject => true | _ => false) = true := by decide
+example : (match XmlSide.importDist false (.mk XmlSide.tagDist [(str "type", str "PU"), (str "nbobjs", str "2"), (str "indexing", str "os")] none [])
+    with | .reject => true | _ => false) = true := by decide
+example : (match XmlSide.importDist false (.mk XmlSide.tagDist
+    [(str "type", str "PU"), (str "nbobjs", str "2"), (str "kind", str "5"), (str "indexing", str "os")] none
+    [.mk XmlSide.tagIndexes [(str "length", str "5")] (some (str "0 1 ")) []]) with | .reject => true | _ => false) = true := by decide
+example : (match XmlSide.importDist false (.mk XmlSide.tagDist
+    [(str "type", str "PU"), (str "nbobjs", str "2"), (str "kind", str "5"), (str "indexing", str "os")] none
+    [.mk XmlSide.tagIndexes [(str "length", str "4")] (some (str "0 1 ")) [], .mk XmlSide.tagIndexes [(str "length", str "2")] (some (str "2 ")) []])
+    with | .reject => true | _ => false) = true := by decide
+-- a PU matrix indexed by gp_index is valid but ignored
+example : (match XmlSide.importDist false (.mk XmlSide.tagDist
+    [(str "type", str "PU"), (str "nbobjs", str "2"), (str "kind", str "5"), (str "indexing", str "gp")] none
+    [.mk XmlSide.tagIndexes [(str "length", str "4")] (some (str "0 1 ")) [], .mk XmlSide.tagU64 [(str "length", str "8")] (some (str "1 2 3 4 ")) []])
+    with | .ok none => true | _ => false) = true := by decide
 
 -- "a<b&c" -> a&lt;b&amp;c  and back, scanning stops on the quote
 example : escape [97, 60, 98, 38, 99] = [97, 38, 108, 116, 59, 98, 38, 97, 109, 112, 59, 99] := by decide
